@@ -1,10 +1,10 @@
 (* Corr/C18.v — correspondence glue: runs the Lockout model on a timed script observed on the real code.
-   value = [ [cond_unban; keep_stronger; late_goroutines; anon_resets] ; [maxf; window; band; perm; rate; burst; ttl; tps] ;
+   value = [ [cond_unban; keep_stronger; late_goroutines; anon_resets; first_match] ; [maxf; window; band; perm; rate; burst; ttl; tps] ;
              [ [t; opcode; ip; arg] ... ] ; [observed result ...] ; [mask ...] ]
    times/durations in the same unit (the harness uses nanoseconds, tps = 10^9).
    opcode: 0 fail 1 succ 2 query 3 ban(arg=dur) 4 unban 5 cleanup 6 bladd(arg=dur) 7 blrm 8 wladd 9 wlrm
            10 allowed 11 blcleanup 12 allowip(arg=n) 13 rlcleanup 14 handshake(arg: 0 bad id, 1 anonymous ok, 2 anonymous failing)
-           15 restart (all components rebuilt over the same storage);  ip >= 1000 is a CIDR key (see Model/Lockout.v cidr_of)
+           15 restart (all components rebuilt over the same storage);  ip >= 1000 is a CIDR key (see Model/Lockout.v keys_of)
    A step is compared only where its mask is 1 (the driver masks the steps whose model answer is not the same
    under all perturbed time lines). *)
 From TX Require Import Base.Val Model.Lockout.
@@ -13,7 +13,8 @@ Open Scope Z_scope.
 Definition vz (v : tval) : Z := Z.of_N (vn v).
 
 Definition dec_variant (v : tval) : variant :=
-  {| cond_unban := vbool (vnth 0 v); keep_stronger := vbool (vnth 1 v); anon_resets := vbool (vnth 3 v) |}.
+  {| cond_unban := vbool (vnth 0 v); keep_stronger := vbool (vnth 1 v); anon_resets := vbool (vnth 3 v);
+     first_match := vn (vnth 4 v) |}.
 Definition dec_cfg (v : tval) : cfg :=
   {| maxf := vz (vnth 0 v); window := vz (vnth 1 v); band := vz (vnth 2 v); perm := vz (vnth 3 v);
      rate := vz (vnth 4 v); burst := vz (vnth 5 v); ttl := vz (vnth 6 v); tps := vz (vnth 7 v) |}.
